@@ -111,8 +111,8 @@ def check_head(ctx, case, data, info, full, pairs, where):
         return          # a Host field configured by the caller is left alone (not URL data)
     if len(hosts) != 1:
         ctx.fail('host-count', where, case, 'Host fields %r' % hosts)
-    elif any(ch in hosts[0] for ch in ' \t\x0b\x0c'):
-        ctx.fail('request-shape', where, case, 'white space inside the Host value %r (smuggled from the URL)' % hosts[0])
+    elif rc.host_value_problem(hosts[0]) and not any(ord(ch) == 0x7f for ch in hosts[0]):
+        ctx.fail('request-shape', where, case, 'the Host value %r is not a host name: %s (smuggled from the URL)' % (hosts[0], rc.host_value_problem(hosts[0])))
     elif hosts[0] != rc.expected_host(info):
         ctx.fail('host-mismatch', where, case, 'Host %r, URL %r' % (hosts[0], canon))
 
@@ -274,6 +274,17 @@ def stream_referer(ctx, cases):
     from wpull.processor.web import WebProcessorSession
     from wpull.protocol.http.request import Request
     from wpull.url import URLInfo
+    # a canonical URL must parse again (C10); one that does not is reported, not crashed on
+    usable = []
+    for c in cases:
+        try:
+            URLInfo.parse(c['child'])
+            if c['parent']:
+                URLInfo.parse(c['parent'])
+            usable.append(c)
+        except ValueError as e:
+            ctx.fail('url-char-class', 'URLInfo.parse', c, 'a canonical URL produced by the parser is refused by the parser: %s' % e)
+    cases = usable
     lines = []
     for c in cases:
         child = URLInfo.parse(c['child'])
@@ -346,6 +357,9 @@ def gen_location(rng, uid, http_only=False):
         host = rng.choice(CHAIN_HOSTS)
         if rng.random() < 0.08:
             host = rng.choice(rc.HOSTS_IPV6_ODD)          # zone ids / odd bracket contents: must be rejected
+        elif rng.random() < 0.06:
+            # a host with a latin-1 compatibility character (U+00A0, U+00A8, …) that name preparation maps to a space
+            return ('%s://%s/n%d' % ('http' if http_only else rng.choice(['http', 'https']), rc.gen_nfkc_host(rng, latin1=True), uid)).encode('latin-1')
         scheme = 'http' if http_only else rng.choice(['http', 'http', 'https'])
         ui = ''
         if rng.random() < 0.2:
@@ -505,6 +519,40 @@ def check_session_case(ctx, case):
     if res['outcome'] in ('stalled', 'runaway'):
         ctx.fail('no-termination', 'WebSession', case, 'session %s after %d requests' % (res['outcome'], len(res['hops'])))
     # ---- direct oracle on the real hops
+    # the URL each hop is FOR, derived by the harness from the start URL and the Location values the server sent (not from
+    # the request object): hop 0 = start URL; after a redirect reply the joined Location; after a 401 the same URL again
+    import wpull.url
+    hop_url = [info0]
+    for k in range(len(res['hops']) - 1):
+        r = replies[k] if k < len(replies) else {'status': 200, 'mode': 'resp'}
+        nxt = hop_url[-1]
+        if nxt is not None and r.get('mode', 'resp') == 'resp' and r.get('status') in rc.REDIRECT_CODES and r.get('location') is not None:
+            # the Location text as the response header parser delivered it (a value is cut at U+0085 and the like)
+            loc_text = res['locs'].get(k)
+            if loc_text is None:
+                loc_text = r['location'].decode('latin-1').strip()
+            try:
+                kk, li = rc.parse_url(wpull.url.urljoin(nxt.url, loc_text))
+                nxt = li if kk == 'url' else None
+            except ValueError:
+                nxt = None
+        hop_url.append(nxt)
+    for k, (host, port, head, body) in enumerate(res['hops']):
+        want = hop_url[k] if k < len(hop_url) else None
+        if want is None:
+            continue
+        p0, m0, target0, v0, fields0 = rc.split_request(head)
+        if p0:
+            continue
+        sp = urllib.parse.urlsplit(want.url)
+        want_target = want.url if case.get('proxy') else sp.path + ('?' + sp.query if sp.query else '')
+        hv = [v for n, v in fields0 if n.lower() == 'host']
+        conn_ok = case.get('proxy') or (host == want.hostname and port == want.port)
+        if target0.decode('latin-1') != want_target or hv != [rc.expected_host(want)] or not conn_ok:
+            ctx.fail('hop-url-mismatch', 'WebSession._process_redirect', case,
+                     'hop %d is for %r (the URL the %s named) but the request on the wire is %r with Host %r, sent to %s:%d'
+                     % (k, want.url, 'redirect' if k else 'caller', head.split(b'\r\n')[0].decode('latin-1'), hv, host, port))
+            break
     cookie_src = {}
     userinfo_src = {}
     if info0.username or info0.password:
@@ -517,8 +565,9 @@ def check_session_case(ctx, case):
             continue
         hvals = [v for n, v in fields if n.lower() == 'host']
         name = '[%s]' % host if ':' in host else host
-        if hvals and any(ch in hvals[0] for ch in ' \t\x0b\x0c'):
-            ctx.fail('request-shape', where, case, 'hop %d: white space inside the Host value %r (smuggled from the URL)' % (k, hvals[0]))
+        if hvals and rc.host_value_problem(hvals[0]) and not any(ord(ch) == 0x7f for ch in hvals[0]):
+            ctx.fail('request-shape', where, case, 'hop %d: the Host value %r is not a host name: %s (smuggled from the URL / Location)'
+                     % (k, hvals[0], rc.host_value_problem(hvals[0])))
         if len(hvals) != 1:
             ctx.fail('host-count', where, case, 'hop %d: Host fields %r' % (k, hvals))
         elif case.get('proxy'):
@@ -995,6 +1044,7 @@ def run(ctx):
     fixed = ['http://h/%0d%0a?%0d%0a', 'http://u%0d%0a:p%0d@h/', 'http://h/a b?c d#e', 'http://[::1]:8080/', 'https://h:443/', 'http://h:443/',
              'https://h:80/', 'http://bücher.example/ü?ü', 'http://h/\x7f\x80\x85', 'http://h/?a=b c+d%20e']
     fixed += ['http://%s%s/x?q' % (h, p) for h in rc.HOSTS_IPV6_ODD for p in ('', ':8080')]
+    fixed += ['http://files%scdn.test/x' % chr(c) for c in rc.NFKC_FORBIDDEN[::3]] + ['http://a%sb.example:8080/' % chr(c) for c in rc.NFKC_LATIN1]
     for u in fixed:
         for full in (False, True):
             cases.append((u, 'GET', 'HTTP/1.1', [('User-Agent', 'x')], full))
